@@ -79,20 +79,39 @@ def gen_history(rng, big=False):
         toks.append("m%d" % rng.choice([1, 1, 2, 2, 3, 4, 5, 8, 10, 0]))
     n = rng.choice([4, 8, 12, 20, 30, 45, 60, 80]) if not big else rng.choice([120, 200, 300])
     hot = pool[: max(1, len(pool) // 3)]
-    for _ in range(n):
+
+    def obs(kind, p, k=None, v=None, q=None):
+        """observe register/deregister token: resource k, token variant v, query variant q (defaults are omitted)"""
+        k = rng.randrange(2) if k is None else k
+        v = (0 if rng.random() < 0.55 else rng.randrange(1, 3)) if v is None else v
+        q = (0 if rng.random() < 0.8 else 1) if q is None else q
+        return "%s%d.%d" % (kind, p, k) + (".%d.%d" % (v, q) if q else ".%d" % v if v else "")
+
+    base = len(toks)
+    while len(toks) - base < n:
         p = rng.choice(hot) if rng.random() < 0.5 else rng.choice(pool)
         c = rng.random()
-        if c < 0.24: toks.append("r%d" % p)
-        elif c < 0.33: toks.append("o%d.%d" % (p, rng.randrange(2)))
-        elif c < 0.37: toks.append("d%d.%d" % (p, rng.randrange(2)))
-        elif c < 0.42: toks.append("a%d" % p)
-        elif c < 0.45: toks.append("f%d" % p)
-        elif c < 0.52: toks.append("q%d" % p)
-        elif c < 0.56: toks.append("k%d" % p)
+        if c < 0.19: toks.append("r%d" % p)
+        elif c < 0.28: toks.append(obs("o", p))
+        elif c < 0.31: toks.append(obs("d", p))
+        elif c < 0.335:
+            # the same resource and query under two different tokens (token replacement in coap_add_observer)
+            k, q, v = rng.randrange(2), int(rng.random() < 0.2), rng.randrange(3)
+            toks += [obs("o", p, k, v, q), obs("o", p, k, (v + 1 + rng.randrange(2)) % 3, q)]
+        elif c < 0.385:
+            # resource changed, notifications go out, a peer resets / acknowledges one
+            toks.append("c%d" % rng.randrange(2))
+            if rng.random() < 0.7: toks.append("i")
+            if rng.random() < 0.6: toks.append("%s%d.%d" % ("t" if rng.random() < 0.85 else "y", p, 0 if rng.random() < 0.7 else rng.randrange(4)))
+        elif c < 0.41: toks.append("%s%d.%d" % ("t" if rng.random() < 0.8 else "y", p, 0 if rng.random() < 0.6 else rng.randrange(4)))
+        elif c < 0.45: toks.append("a%d" % p)
+        elif c < 0.475: toks.append("f%d" % p)
+        elif c < 0.535: toks.append("q%d" % p)
+        elif c < 0.57: toks.append("k%d" % p)
         elif c < 0.63: toks.append("+%d" % p)
-        elif c < 0.69: toks.append("-%d" % p)
-        elif c < 0.72: toks.append("x%d" % p)
-        elif c < 0.73: toks.append("D%d" % rng.randrange(2))
+        elif c < 0.685: toks.append("-%d" % p)
+        elif c < 0.715: toks.append("x%d" % p)
+        elif c < 0.725: toks.append("D%d" % rng.randrange(2))
         elif c < 0.86:
             t = timeout * 1000
             toks.append("T%d" % rng.choice([1, 7, 100, 999, 1000, 1999, 2000, 2001, 3999, 4000, 8000, 16000, 32000, 62000,
@@ -138,7 +157,7 @@ def split_line(s):
             for r in R[1:].split(","):
                 i, _, rest = r.partition("=")
                 a, _, b = rest.partition("@")
-                refs[i] = (int(a), int(b))
+                refs[i] = (int(a), int(b.partition("#")[0]))
         i0, i1 = I[1:].split("/")
         segs.append((tok, outcome, evs, refs if refs is not None else {}, (int(i0), int(i1)), tuple(int(x) for x in L[1:].split("/"))))
     return segs, fields
@@ -173,7 +192,7 @@ def oracle(inp, impl):
         if c == "T": now += int(tok[1:])
         elif c == "s": timeout = int(tok[1:]) or 300
         elif c == "m": max_idle = int(tok[1:])
-        creator = peer_of(tok) if c in "rodak" else None
+        creator = peer_of(tok) if c in "rodakty" else None
         # events: exactly one NEW and one DEL per session, in a sensible order
         dels_here = []
         for e in evs:
@@ -226,7 +245,7 @@ def oracle(inp, impl):
                     return "idle limit %d reached (%d idle) but the oldest idle session was not the one evicted: deleted %s (event %d, %s)" % (
                         max_idle, len(idle_before), victims, k, tok)
         # reclamation: after an I/O pass no unreferenced session is older than the timeout
-        if c in "irodak" and not outcome.startswith("skip"):
+        if c in "irodakty" and not outcome.startswith("skip"):
             for i, (ref, last) in refs.items():
                 if ref == 0 and last + timeout * 1000 <= now:
                     return "session %s idle since %d still alive at %d after an I/O pass (timeout %ds) (event %d, %s)" % (
@@ -300,7 +319,7 @@ def nontrivial(c):
 
 def classify(c):
     n = len(c["input"].split()) - 1
-    peers = {t[1:].split(".")[0] for t in c["input"].split()[1:] if t[0] in "rodafqk+-x"}
+    peers = {t[1:].split(".")[0] for t in c["input"].split()[1:] if t[0] in "rodafqk+-xty"}
     return "ev<=%d peers<=%d" % (next(b for b in (8, 20, 45, 80, 10 ** 6) if n <= b), next(b for b in (1, 3, 8, 20, 50) if len(peers) <= b))
 
 
